@@ -43,6 +43,7 @@ type Engine struct {
 	scopeKinds     map[*ssa.Function][]string
 	closerMemo *closerInfo
 	deadMemo   map[*ssa.Function]bool
+	relevantGhosts map[string]bool
 	deadSkipped map[string]bool
 	closeMemo      map[*ssa.Function]int
 }
@@ -882,4 +883,77 @@ func (e *Engine) deadFuncs() map[*ssa.Function]bool {
 	}
 	e.deadMemo = dead
 	return dead
+}
+
+// ghostRelevant: is the ghost mentioned by a clause that takes part in the check of
+// the current property?  (Frame obligations for other ghosts are pointless: nothing
+// that is assumed or proved for this property reads them.)
+func (e *Engine) ghostRelevant(name string) bool {
+	if e.curProp == "" {
+		return true
+	}
+	if e.relevantGhosts == nil {
+		e.relevantGhosts = map[string]bool{}
+		words := func(src string) {
+			for _, w := range strings.FieldsFunc(src, func(r rune) bool {
+				return !(r == '_' || r >= 'a' && r <= 'z' || r >= 'A' && r <= 'Z' || r >= '0' && r <= '9')
+			}) {
+				e.relevantGhosts[w] = true
+			}
+		}
+		clause := func(c *Clause) {
+			if c != nil && e.active(c.Tags) {
+				words(c.Src)
+			}
+		}
+		for _, s := range e.specs.funcs {
+			for _, c := range s.Requires {
+				clause(c)
+			}
+			for _, c := range s.Ensures {
+				clause(c)
+			}
+			for _, l := range s.Loops {
+				for _, c := range l.Invariants {
+					clause(c)
+				}
+				for _, c := range l.Increases {
+					clause(c)
+				}
+				clause(l.Decreases)
+			}
+			for _, b := range s.Before {
+				clause(b.C)
+			}
+			for _, cs := range s.CallSpecs {
+				for _, c := range cs.Ensures {
+					clause(c)
+				}
+			}
+		}
+		for _, cs := range e.specs.csByKey {
+			for _, c := range cs.Ensures {
+				clause(c)
+			}
+			for _, c := range cs.Requires {
+				clause(c)
+			}
+		}
+		for _, t := range e.specs.types {
+			for _, c := range t.Invs {
+				clause(c)
+			}
+			for _, li := range t.LockInvs {
+				clause(li.C)
+			}
+		}
+		for _, p := range e.specs.preds {
+			words(p.Src)
+		}
+	}
+	// parametrised ghosts are keyed "name" too
+	if i := strings.IndexAny(name, ".("); i > 0 {
+		name = name[:i]
+	}
+	return e.relevantGhosts[name]
 }
